@@ -1,5 +1,6 @@
 -------------------------------- MODULE MCPara --------------------------------
 EXTENDS CoParaGen
+Short(subs) == {<<"shortsig", i, k, n>> : i \in {4112, 4113}, k \in subs, n \in {1, 2, 3}}
 G(off, size, type, en) == [off |-> off, size |-> size, type |-> type, en |-> en]
 \* layout A: one group (communication parameters); layout B: sub 1 = all, sub 2 = application (reset node), sub 3 = communication
 GA == << G(0, 3, 2, TRUE) >>
@@ -11,8 +12,8 @@ DB == <<21, 22, 31, 32, 33>>
 GD == << G(0, 5, 1, TRUE), G(0, 2, 1, TRUE), G(0, 0, 0, FALSE), G(2, 3, 2, TRUE) >>
 LD == {<<"save", k>> : k \in {1, 3, 4}} \cup {<<"load", k>> : k \in {1, 2, 3, 4}} \cup {<<"poke", 0, 77>>, <<"poke", 4, 99>>, <<"restart">>, <<"resetcom">>}
 LA == {<<"save", 1>>, <<"load", 1>>, <<"badsig", 4112, 1, <<115, 97, 118, 100>>>>, <<"badsig", 4113, 1, <<115, 97, 118, 101>>>>, <<"poke", 0, 77>>, <<"poke", 2, 88>>, <<"poke", 0, 78>>,
-       <<"restart">>, <<"resetnode">>, <<"resetcom">>, <<"fault", 1, 1>>, <<"fault", 2, 2>>, <<"geterr">>}
+       <<"restart">>, <<"resetnode">>, <<"resetcom">>, <<"fault", 1, 1>>, <<"fault", 2, 2>>, <<"geterr">>} \cup Short({1})
 LB == {<<"save", k>> : k \in 1..3} \cup {<<"load", k>> : k \in 1..3} \cup {<<"badsig", 4112, 2, <<0, 0, 0, 0>>>>, <<"badsig", 4113, 1, <<108, 111, 97, 101>>>>}
-      \cup {<<"poke", 0, 77>>, <<"poke", 3, 88>>, <<"poke", 1, 66>>, <<"poke", 4, 99>>, <<"restart">>, <<"resetnode">>, <<"resetcom">>, <<"fault", 1, 1>>, <<"fault", 2, 1>>, <<"geterr">>}
+      \cup {<<"poke", 0, 77>>, <<"poke", 3, 88>>, <<"poke", 1, 66>>, <<"poke", 4, 99>>, <<"restart">>, <<"resetnode">>, <<"resetcom">>, <<"fault", 1, 1>>, <<"fault", 2, 1>>, <<"geterr">>} \cup Short({1, 3})
 PP == << <<"geterr">>, <<"dump">>, <<"nvm">>, <<"restart">>, <<"dump">>, <<"geterr">>, <<"resetcom">>, <<"dump">> >>
 ===============================================================================
